@@ -174,7 +174,7 @@ def run(prop):
         funs = sorted(os.path.join(bdir, f) for f in os.listdir(bdir) if f.endswith(".sc")) + funs
         import stagecheck as _sc
 
-        funs = _sc.shape_programs(chk, only=("dup", "rvd", "objp", "nest", "argn", "bal", "rvc", "rvl", "pfx", "dsp", "cap", "capp", "gname")) + funs
+        funs = _sc.shape_programs(chk, only=("dup", "rvd", "objp", "nest", "argn", "bal", "rvc", "rvl", "pfx", "dsp", "cap", "capp", "gname", "lzs", "zhd")) + funs
         # regression corpus (minimised past failures): always, never sampled away
         funs = pipeline.corpus_programs("regress") + [f for f in funs if "/corpus/regress/" not in f]
         for f in funs:
